@@ -370,8 +370,8 @@ func checkC14(c *Ctx) {
 	if c.Tier == "thorough" {
 		nConv, multi = 120, 2000
 	}
-	c.Rule = "corpus = every uplink and downlink NGAP message of simulated conversations (all on-path types, swarm-varied) plus the encodings of the library's own builders; for each corpus message the single-fault space is enumerated completely: every strict prefix, every single-bit flip, every octet set to 00/7F/80/FF; thorough adds seeded multi-octet faults, splices and random strings. evaluation = one ngap.Decoder call; oracle: returns (PDU | error), no panic, no fatal error, <= 32 MiB allocated and <= 5 s per call. distinct = distinct (corpus message, mutation); non-trivial = all (the genuine message itself is decoded too)"
-	c.Assume = []string{"thresholds (32 MiB, 5 s per call for inputs <= 4 KiB) are far above honest behaviour so that they never trip on correct code",
+	c.Rule = "corpus = every uplink and downlink NGAP message of simulated conversations (all on-path types, swarm-varied) plus the encodings of the library's own builders; for each corpus message the single-fault space is enumerated completely: every strict prefix, every single-bit flip, every octet set to 00/7F/80/FF/C1/C4, every octet pair set to FFFF/7FFF/8000/BFFF/C4C4, and runs of C4 (8, 40), FF (8), 00 (8) at every offset (adversarial lengths, counts and fragmented length determinants); thorough adds seeded multi-octet faults, splices and random strings. evaluation = one ngap.Decoder call; oracle: returns (PDU | error), no panic, no fatal error, <= 16 MiB allocated and <= 5 s per call. distinct = distinct (corpus message, mutation); non-trivial = all (the genuine message itself is decoded too)"
+	c.Assume = []string{"thresholds (16 MiB, 5 s per call for inputs <= 4 KiB) are far above honest behaviour so that they never trip on correct code",
 		"the corpus need not be independent of the library: the builders' own encodings are used for breadth"}
 	c.Components = map[string][]string{"real": {"free5gclib/ngap.Decoder", "free5gclib/aper", "free5gclib/ngap/ngapType"}, "stub": {"none: message-corruption faults are applied to the byte strings handed to the decoder"}}
 	// 1. corpus from simulated conversations
@@ -425,7 +425,7 @@ func checkC14(c *Ctx) {
 		var part []interface{}
 		for _, m := range msgs[i:end] {
 			part = append(part, m)
-			total += 13*len(m)/2 + 1 + multi
+			total += 24*len(m)/2 + 1 + multi
 		}
 		s := lsScenario(root.Uint64(), "dec", nil)
 		delete(s.Rig, "histories")
@@ -449,11 +449,11 @@ func checkC14(c *Ctx) {
 		}
 	})
 	c.Evals = decodes
-	c.Faults["prefix+bitflip+byteset(single, enumerated)"] = decodes
+	c.Faults["prefix+bitflip+octet-set+pair-set+run (enumerated)"] = decodes
 	c.Extra["distinct_note"] = "every (corpus message, mutation) pair is distinct by construction; distinct_nontrivial counts them"
 	c.Extra["expected_decodes"] = total
 	c.Exhaustive = true
-	c.Extra["exhaustive_part"] = "single faults (every prefix, bit flip, octet set to 00/7F/80/FF) over every corpus message"
+	c.Extra["exhaustive_part"] = "every prefix, bit flip, octet set, octet-pair set and run (see rule) at every offset of every corpus message"
 	c.distinctOverride = decodes
 	// a replay for a decoder violation is the single input
 	for i := range c.Violations {
